@@ -9,7 +9,7 @@ CONSTANTS
   MaxEvents = 6
   MaxNow = 0
   MaxFaults = 1
-  Behaviours = {"ok","e500"}
+  Behaviours = {"ok","e500","timeout"}
   Coarse = TRUE
   Loose = FALSE
 INVARIANTS TypeOK OwnDestination ExactlyOneBatch OversizeCounted BodyWithinLimit CountWithinLimit AtMostTwice Timely StopFlushes GaugeExact Conservation
